@@ -14,6 +14,7 @@ import (
 	"math"
 	"runtime"
 	"strings"
+	"time"
 
 	bs "github.com/danthegoodman1/bloomsearch"
 )
@@ -51,6 +52,7 @@ func runC19(c *ctx) {
 	c19Refooter(c)
 	c19Mutants(c)
 	c19CopiedHashless(c)
+	c19MergeAfterCorruption(c)
 }
 
 func c19Validators(c *ctx) {
@@ -573,5 +575,76 @@ func c19CopiedHashless(c *ctx) {
 				}
 			}
 		}
+	}
+}
+
+// c19MergeAfterCorruption: a byte of a source block's row data is changed (inside a JSON string value when
+// the block is uncompressed, so that the row still parses), then a merge rebuilds that block with others.
+// The merge must fail or leave the damage detectable: afterwards no query may return a row that was never
+// written, and a nil-error answer must be the full original answer.
+func c19MergeAfterCorruption(c *ctx) {
+	r := NewRng(c.seed, 197)
+	for i := 0; i < 24*c.scale; i++ {
+		cfg := bs.DefaultBloomSearchEngineConfig()
+		cfg.RowDataCompression = pick(r, []bs.CompressionType{bs.CompressionNone, bs.CompressionNone, bs.CompressionSnappy, bs.CompressionZstd})
+		cfg.PartitionFunc = partitionFunc("p")
+		cfg.MaxBufferedTime = time.Hour
+		cfg.MaxRowGroupRows = 100
+		env := NewEnv(cfg)
+		h := &History{Env: env, Rows: map[int]*StoredRow{}}
+		nf := 2 + r.IntN(3)
+		id := 0
+		for f := 0; f < nf; f++ {
+			var rows []map[string]any
+			for j := 0; j < 1+r.IntN(3); j++ {
+				id++
+				rows = append(rows, map[string]any{"_id": id, "p": "a", "word": fmt.Sprintf("bravo%04d", id)})
+			}
+			env.IngestWait(rows)
+		}
+		layout, err := h.Layout()
+		if err != nil || len(layout) < 2 {
+			env.Stop()
+			continue
+		}
+		written := map[string]bool{}
+		for _, f := range layout {
+			for _, b := range f.Blocks {
+				for _, rb := range b.Rows {
+					v, _ := bs.VerifMaterializeRow(rb)
+					k, _ := json.Marshal(v)
+					written[string(k)] = true
+				}
+			}
+		}
+		victim := pick(r, layout)
+		vb := victim.Blocks[r.IntN(len(victim.Blocks))]
+		mutant := append([]byte(nil), victim.Bytes...)
+		what := ""
+		if idx := bytes.Index(mutant[vb.Meta.RowDataOffset:vb.Meta.RowDataOffset+vb.Meta.RowDataSize], []byte("bravo")); cfg.RowDataCompression == bs.CompressionNone && idx >= 0 {
+			pos := vb.Meta.RowDataOffset + idx + r.IntN(5)
+			mutant[pos] = "XYZ01"[r.IntN(5)]
+			what = fmt.Sprintf("letter inside a string value at %d", pos)
+		} else {
+			pos := vb.Meta.RowDataOffset + r.IntN(vb.Meta.RowDataSize)
+			mutant[pos] ^= byte(1 << uint(r.IntN(8)))
+			what = fmt.Sprintf("bit flip in row data at %d", pos)
+		}
+		env.Data.Put(victim.Ptr, mutant)
+		_, merr := env.Eng.Merge(context.Background())
+		out := env.Query(&bs.Query{})
+		replay := map[string]any{"files": nf, "compression": string(cfg.RowDataCompression), "victim": victim.Ptr, "mutation": what, "merge_err": fmt.Sprint(merr), "query_err": fmt.Sprint(out.Err)}
+		c.r.Case(true, fmt.Sprint("merge-after-corruption", i, what))
+		c.r.Hit("merge-after-corruption." + map[bool]string{true: "merge-error", false: "merge-nil"}[merr != nil])
+		for _, row := range out.Rows {
+			k, _ := json.Marshal(row)
+			if !written[string(k)] {
+				c.r.Add(Finding{Kind: "violation", Check: "merge-launders-corruption", Detail: "after a merge over a corrupted source block a query returned a row that was never written: " + trunc(string(k), 160), Replay: replay})
+			}
+		}
+		if out.Err == nil && len(out.Rows) != id {
+			c.r.Add(Finding{Kind: "violation", Check: "merge-launders-corruption", Detail: fmt.Sprintf("after a merge over a corrupted source block a query returned %d of %d rows with a nil error", len(out.Rows), id), Replay: replay})
+		}
+		env.Stop()
 	}
 }
